@@ -201,6 +201,36 @@ def layout_fn(case, wit):
     return (side, n)
 
 
+def expiry_fn(case, wit):
+    """one or two orders of the layout carry a time-to-live and expire together (every position: root, inner nodes, leaves,
+    last slot), then ONE round that sweeps k levels, for every k: a round shows a wrong order of the queue only if it stops
+    right behind the misplaced order"""
+    side, n, arr = case
+    worst = 100 if side else 100 + n - 1
+    price = (lambda r: 100 + (n - 1 - r)) if side else (lambda r: 100 + r)
+    gone = k1 = None
+    try:
+        for gone in [(j,) for j in range(n)] + list(itertools.combinations(range(n), 2)):
+            for k1 in range(1, n - len(gone) + 1):
+                w = World("free", _FACTORY())
+                for i, r in enumerate(arr):
+                    w.apply(("L", side, price(r), 1, 1 if i in gone else None))
+                w.apply(("T",))
+                w.apply(("T",))
+                w.apply(("L", not side, worst, k1, None))
+                w.apply(("X",))
+                rest = [o for o in w.live() if o.is_buy == side]
+                if rest:
+                    w.apply(("L", not side, min(rest, key=K).price, 1, None))
+                    w.apply(("X",))
+                wit.merge(w.wit)
+                wit.inc("heap_expiry_cases")
+    except Violation as v:
+        raise Violation(v.monitor, v.msg.split(" | ")[0], "deep book: %s side, price levels submitted in the order %s, the orders submitted as #%s expire, then a sweep of %d levels | %s" % (
+            "buy" if side else "sell", [price(r) for r in arr], list(gone), k1, v.msg.split(" | ", 1)[-1]))
+    return (side, n)
+
+
 # ------------------------------------------------------------------------------------------------
 # (T) books with ties: every arrival sequence of n orders over three price levels
 
@@ -269,6 +299,13 @@ def run_layouts(res, factory, tier, seed, ns=None):
     res.coverage["distinct_nontrivial"] = dn0
     res.coverage["grids"]["heap_layouts"]["orders_per_side"] = list(ns)
     res.require_witness(["heap_layout_cases"])
+    ns2 = (6, 7, 8) if tier == "quick" else (6, 7, 8, 9)
+    ev0 = res.coverage["evaluations"]
+    run_grid(res, "heap_layouts_with_expiries", list(layout_cases(ns2)), expiry_fn, seed)
+    res.coverage["evaluations"] = ev0 + res.coverage["witness_classes"].get("heap_expiry_cases", 0)
+    res.coverage["distinct_nontrivial"] = dn0
+    res.coverage["grids"]["heap_layouts_with_expiries"]["orders_per_side"] = list(ns2)
+    res.require_witness(["heap_expiry_cases"])
 
 
 def run(res, factory, tier, seed, ns=None, variants=("A", "B", "C", "D")):
@@ -293,7 +330,7 @@ def replay(payload, factory):
     case = (c[0], c[1], tuple(c[2]))
     print("deep one-sided book case (is_buy side, n, arrival permutation / heap layout):", case)
     try:
-        {"heap_layouts": layout_fn, "books_with_ties": ties_fn}.get(payload.get("grid"), fn)(case, Counter())
+        {"heap_layouts": layout_fn, "heap_layouts_with_expiries": expiry_fn, "books_with_ties": ties_fn}.get(payload.get("grid"), fn)(case, Counter())
     except Violation as v:
         print("  ==> VIOLATION %s: %s" % (v.monitor, v.msg))
         return v
